@@ -38,7 +38,7 @@ theorem azeq_direction (K : Kern ℝ) (eps : ℝ) :
 
 /-- reciprocal azimuthal scale: `m12/s12`, and 1 in the limit of coincident points -/
 theorem azeq_rk (K : Kern ℝ) (eps : ℝ) :
-    (azeqForward K eps).rk = if K.sig ≤ eps then 1 else K.m12 / K.s12 := by
+    (azeqForward K eps).rk = if K.sig ≤ eps ∨ K.s12 = 0 then 1 else K.m12 / K.s12 := by
   simp [azeqForward, azeqRk, ofNat_real]
 
 /-- `atan2d` over the reals: `atan2(x, y)` in degrees -/
